@@ -36,7 +36,10 @@ fn eligible_spec(name: &str) -> bool {
 fn small_contract(rng: &mut Rng) -> String {
     let seed = rng.next();
     let cfg = Cfg { max_depth: 2, snippet_pct: 60, max_items: 2, allow_assembly: false, ..Cfg::default() };
-    let mut s = gen::random_file(seed, cfg);
+    // one file in three is a scenario file (plausible contracts: SafeMath under various versions, require messages,
+    // state variables written in various places), so that version-gated and table-based patterns have findings that
+    // differ from file to file within one directory
+    let mut s = if rng.chance(1, 3) { gen::scenario_file(seed) } else { gen::random_file(seed, cfg) };
     if solang_parser::parse(&s, 0).is_err() {
         s = "pragma solidity ^0.8.0;\ncontract C { function f(uint a) public { a++; } }\n".to_string();
     }
@@ -208,6 +211,20 @@ pub fn dir_requests(ctx: &mut Ctx, rng: &mut Rng) {
         let depth = 1 + rng.below(3);
         let mut pool: Vec<String> = vec![];
         populate(&dir, rng, depth, &mut counter, hostile, &mut pool);
+        // one tree in three: files that fall on different sides of the version thresholds side by side (SafeMath in use,
+        // a long and a short require message), at the top and in a sub-directory
+        if k % 3 == 0 {
+            let body = "library SafeMath { function add(uint256 a, uint256 b) internal pure returns (uint256) { return a + b; } }\ncontract V { using SafeMath for uint256; function f(uint256 a) public pure returns (uint256) { require(a > 1, \"a message that is certainly longer than thirty-two bytes\"); require(a > 2, \"short\"); return a.add(1).add(2); } }\n";
+            let versions = ["0.7.6", "0.8.17", "0.8.0", "0.8.3", "0.8.4", "0.6.12"];
+            let nfiles = 2 + rng.below(3);
+            let subv = dir.join("versions");
+            let _ = std::fs::create_dir(&subv);
+            for i in 0..nfiles {
+                let v = versions[rng.below(versions.len())];
+                let holder = if rng.chance(1, 2) { dir.clone() } else { subv.clone() };
+                let _ = std::fs::write(holder.join(format!("Ver{}.sol", i)), format!("pragma solidity {};\n{}", v, body));
+            }
+        }
         // two trees in five: symbolic links inside the analysed tree to a directory and to a file that lie outside it
         // (the code follows them: `Path::is_dir`, `read_to_string`)
         let ext = root.join(format!("ext{}", k));
